@@ -416,36 +416,93 @@ func ruleC20(c *Ctx) {
 		return
 	}
 	hname := funcName(hover)
-	calls := findCalls(hover, func(cal *ssa.Function) bool { return calleeNameIs(cal, "analyzer.CalculateAccountBalancesFromTransactions") })
-	c.census("C20-TREE", "balance computations from a transaction list in the hover handler", len(calls), 1)
-	for _, call := range calls {
-		arg := call.Common().Args[0]
-		fromAll := false
-		if ac, ok := arg.(*ssa.Call); ok {
-			if cal := ac.Common().StaticCallee(); cal != nil && calleeNameIs(cal, "include.ResolvedJournal).AllTransactions") {
-				fromAll = true
+	_ = hname
+	// by data flow, wherever the code lives below the hover handler: the list handed to the balance calculator
+	// derives from AllTransactions() of the resolved tree, and every other consumer of a transaction list on
+	// the hover path derives its list from the same AllTransactions() call(s)
+	ciH := buildConc(c)
+	reachHover := Reach(ciH.g, []*ssa.Function{hover}, true)
+	isTxList := func(t types.Type) bool {
+		sl, ok := t.Underlying().(*types.Slice)
+		return ok && typeHasSuffix(sl.Elem(), "ast.Transaction")
+	}
+	isAllTx := func(cal *ssa.Function) bool {
+		return cal != nil && cal.Signature.Recv() != nil && typeHasSuffix(cal.Signature.Recv().Type(), "include.ResolvedJournal") &&
+			cal.Signature.Params().Len() == 0 && cal.Signature.Results().Len() == 1 && isTxList(cal.Signature.Results().At(0).Type())
+	}
+	isListCalculator := func(cal *ssa.Function) bool {
+		return cal != nil && cal.Pkg != nil && strings.HasSuffix(cal.Pkg.Pkg.Path(), "internal/analyzer") && cal.Signature.Params().Len() == 1 &&
+			isTxList(cal.Signature.Params().At(0).Type()) && cal.Signature.Results().Len() == 1 && typeHasSuffix(cal.Signature.Results().At(0).Type(), "analyzer.AccountBalances")
+	}
+	allTxCalls := func(sl map[ssa.Value]bool) map[ssa.Value]bool {
+		out := map[ssa.Value]bool{}
+		for v := range sl {
+			if call, ok := v.(*ssa.Call); ok && isAllTx(call.Call.StaticCallee()) {
+				out[v] = true
 			}
 		}
-		c.check(fromAll, "C20-TREE", hname, "balances computed over AllTransactions of the resolved tree", call.Pos(),
-			"balances are summed over the resolved tree's AllTransactions()", "balances are not computed from the resolved tree's AllTransactions()")
-		// the same value reaches the hover content builder
-		same := false
-		for _, b := range hover.Blocks {
+		return out
+	}
+	type listUse struct {
+		f    *ssa.Function
+		call *ssa.Call
+		arg  ssa.Value
+	}
+	var listCalcs, consumers []listUse
+	spkH := c.P.SSAPkg("internal/server")
+	for _, f := range c.P.ModuleFuncs() {
+		top := f
+		for top.Parent() != nil {
+			top = top.Parent()
+		}
+		if top.Pkg != spkH || !reachHover[f] {
+			continue
+		}
+		for _, b := range f.Blocks {
 			for _, ins := range b.Instrs {
-				if c2, ok := ins.(*ssa.Call); ok && c2 != call {
-					if cal := c2.Common().StaticCallee(); cal != nil && strings.Contains(cal.Name(), "buildHoverContent") {
-						for _, a := range c2.Common().Args {
-							if backSlice(a)[arg] {
-								same = true
-							}
-						}
+				call, ok := ins.(*ssa.Call)
+				if !ok {
+					continue
+				}
+				cal := call.Call.StaticCallee()
+				if cal == nil || !inModule(cal) || isAllTx(cal) {
+					continue
+				}
+				for _, a := range call.Call.Args {
+					if !isTxList(a.Type()) {
+						continue
+					}
+					if isListCalculator(cal) {
+						listCalcs = append(listCalcs, listUse{f, call, a})
+					} else {
+						consumers = append(consumers, listUse{f, call, a})
 					}
 				}
 			}
 		}
-		c.check(same, "C20-TREE", hname, "counts use the list the sums were computed from", call.Pos(),
-			"the transaction list passed to the hover builder (posting/transaction counts) is the list the balances were summed over",
-			"the hover builder receives a different transaction list than the one the balances were computed from: sums and counts disagree")
+	}
+	c.census("C20-TREE", "balance computations from a transaction list on the hover path", len(listCalcs), 1)
+	c.census("C20-TREE", "other consumers of a transaction list on the hover path", len(consumers), 1)
+	want := map[ssa.Value]bool{}
+	for _, u := range listCalcs {
+		got := allTxCalls(sliceUp(ciH, u.arg, u.f))
+		for v := range got {
+			want[v] = true
+		}
+		c.check(len(got) > 0, "C20-TREE", funcName(u.f), "balances computed over AllTransactions of the resolved tree", u.call.Pos(),
+			"balances are summed over the resolved tree's AllTransactions()", "balances are not computed from the resolved tree's AllTransactions()")
+	}
+	for _, u := range consumers {
+		got := allTxCalls(sliceUp(ciH, u.arg, u.f))
+		same := len(want) > 0
+		for v := range want {
+			if !got[v] {
+				same = false
+			}
+		}
+		c.check(same, "C20-TREE", funcName(u.f), "counts use the list the sums were computed from: "+u.call.Call.StaticCallee().Name(), u.call.Pos(),
+			"the transaction list used here (posting/transaction counts) derives from the AllTransactions() call the balances were summed over",
+			"a consumer of the transaction list on the hover path receives a list that does not derive from the AllTransactions() call the balances were computed from: sums and counts disagree")
 	}
 	// C20-ONCE: AllTransactions = primary once + every FileOrder entry once
 	all := c.P.FindDecl("internal/include", func(fd *ast.FuncDecl, info *types.Info) bool {
